@@ -1,8 +1,8 @@
 (* Run/RunC04.v — entry points of the C04 models.
    kinds: 401 walk verdicts of a tree with .gitignore files; 402 matched_path_or_any_parents of one file;
-          403 add_line (flags + rewritten glob text or error) *)
+          403 add_line (flags + rewritten glob text or error); 404 line_class (coverage of the line theorem) *)
 From RG Require Import Base.Bytes Base.Val Model.Glob Model.GlobSet Spec.GlobSem Spec.GlobSetSem Model.Gitignore
-  Spec.GitSem.
+  Spec.GitSem Spec.GitGrammar Spec.GitLineClass.
 
 (* split a '/'-joined relative path into its components ("" = no components) *)
 Fixpoint split_slash (s : bytes) (cur : bytes) : list bytes :=
@@ -45,10 +45,15 @@ Definition run_add_line (v : val) : val :=
   | LGlob g => VL [VN 2%N; of_bool (ig_whitelist g); of_bool (ig_only_dir g); of_bytes (ig_actual g)]
   end.
 
+(* 404: (ci line) -> is the line in the class of the line-level theorem? *)
+Definition run_line_class (v : val) : val :=
+  of_bool (line_class (as_bool (fld 0 v)) (as_bytes (fld 1 v))).
+
 Definition entry (k : N) (v : val) : option val :=
   match k with
   | 401%N => Some (run_walk v)
   | 402%N => Some (run_one_file v)
   | 403%N => Some (run_add_line v)
+  | 404%N => Some (run_line_class v)
   | _ => None
   end.
